@@ -41,46 +41,66 @@ Routes == ExpectRoutes \cup RdmRoutes \cup OperatorRoutes \cup NormRoutes
 \* shape of the request: n sites, given in ascending order of the network's own site order (asc),
 \* a single site handed over bare instead of as a 1-tuple (bare), normalized flag, and for PEPS3D
 \* whether one of the three lattice lengths is 1 (thin)
-Avail(route, cls, n, asc, bare, nrm, thin) ==
-  LET tup == ~bare IN
-  CASE route \in {"local_expectation_exact", "local_expectation_exact_return", "compute_local_expectation_exact"}
-         -> tup                                      \* len(where) is taken of the argument itself
-    [] route = "local_expectation_cluster"           -> tup
-    [] route = "local_expectation_cluster_maxbond"   -> tup /\ (cls = "peps" \/ Gen(cls))   \* goes through .local_expectation
-    [] route = "local_expectation_cluster_loopunion" -> tup /\ cls \notin {"mps", "tree"}   \* needs a loop through the sites
-    [] route = "local_expectation_compressed"        -> tup /\ (cls = "peps" \/ Gen(cls))   \* MPS.partial_trace is a renamed stub, PEPS3D.partial_trace another signature
-    [] route = "compute_local_expectation_compressed" -> tup /\ Gen(cls)                    \* shadowed by the lattice classes
-    [] route = "local_expectation_gloop_expand"      -> tup
-    [] route = "local_expectation_gloop_expand_reduced" -> tup /\ nrm
-    [] route \in {"local_expectation_gloop_expand_auto", "local_expectation_sloop_expand"}
-         -> tup /\ cls \in {"ring", "mpsc"}          \* the automatically found loop set is complete on a single loop only
-    [] route = "local_expectation_canonical"         -> cls = "mps"
-    [] route = "compute_local_expectation_canonical" -> cls = "mps" /\ tup
-    [] route = "compute_local_expectation_via_envs"  -> OneD(cls) /\ tup
-    [] route = "expec_TN_1D"                         -> cls = "mps"
-    [] route \in {"peps_compute_local_expectation", "peps_compute_local_expectation_envs"}
-         -> cls = "peps" /\ ((n = 1 /\ bare) \/ (n = 2 /\ asc))   \* plaquette map: single coordinates and pairs a < b only
-    [] route = "peps3d_compute_local_expectation"    -> cls = "peps3d" /\ ~thin
-    [] route = "partial_trace_exact"                 -> TRUE
-    [] route = "partial_trace_exact_tensor_normalized" -> FALSE   \* Tensor has no multiply_: raises
-    [] route = "partial_trace_cluster"               -> tup \/ cls = "peps3d"
-    [] route = "partial_trace_compressed"            -> tup /\ (cls = "peps" \/ Gen(cls))
-    [] route = "partial_trace_compressed_reduce"     -> tup /\ (cls = "peps" \/ Gen(cls)) /\ n = 2
-    [] route = "make_reduced_density_matrix"         -> ~nrm
-    [] route = "partial_trace_to_dense_canonical"    -> cls = "mps"
-    [] route = "partial_trace_to_mpo"                -> OneD(cls) /\ asc /\ ~nrm /\ tup
-    [] route = "peps3d_partial_trace"                -> cls = "peps3d" /\ ~thin
-    [] route \in {"operator_trace", "operator_partial_transpose"} -> tup /\ ~nrm
-    [] route = "mpo_trace"                           -> OneD(cls) /\ asc /\ ~nrm /\ tup
-    [] route \in NormRoutes                          -> cls = "peps"
-    [] OTHER -> FALSE
-
-\* the shapes that make sense for a class (what the model and the driver enumerate)
 ShapeOK(cls, n, asc, bare) ==
   /\ n \in 1..3
   /\ (bare => n = 1)
   /\ (n = 1 => asc)
   /\ (n = 3 => (OneD(cls) \/ cls \in {"tree", "ring"}))
+
+\* the requests for which the statement demands the dense answer or a rejection (everything else is
+\* not exercised: methods of another class, approximations by design, options a route does not have)
+Exercised(route, cls, n, asc, bare, nrm, thin) ==
+  /\ ShapeOK(cls, n, asc, bare)
+  /\ (thin => cls = "peps3d")
+  /\ CASE route \in {"local_expectation_canonical", "compute_local_expectation_canonical",
+                     "compute_local_expectation_via_envs", "partial_trace_to_dense_canonical"} -> OneD(cls)
+        [] route = "expec_TN_1D"  -> cls = "mps"                   \* (the driver has no cyclic MPO helper)
+        [] route \in {"partial_trace_to_mpo", "mpo_trace"}
+             -> OneD(cls) /\ asc /\ ~nrm /\ ~bare                 \* documented to keep ascending order; no normalisation option
+        [] route \in {"peps_compute_local_expectation", "peps_compute_local_expectation_envs"} \cup NormRoutes
+             -> cls = "peps"
+        [] route \in {"peps3d_compute_local_expectation", "peps3d_partial_trace"} -> cls = "peps3d"
+        [] route = "compute_local_expectation_compressed" -> Gen(cls)   \* the lattice classes shadow it with their own method
+        [] route \in {"partial_trace_compressed", "partial_trace_compressed_reduce"} -> cls # "peps3d"   \* shadowed by PEPS3D.partial_trace
+        \* automatically found loop sets are complete on a single loop only (elsewhere: an approximation by design)
+        [] route \in {"local_expectation_gloop_expand_auto", "local_expectation_sloop_expand"} -> cls \in {"ring", "mpsc"}
+        \* a reduced cluster no longer spans the network: only the normalised value is exact (BP fixed point)
+        [] route = "local_expectation_gloop_expand_reduced" -> nrm
+        [] route \in {"make_reduced_density_matrix", "operator_trace", "operator_partial_transpose"} -> ~nrm
+        [] OTHER -> route \in Routes
+
+\* ... and among those, the ones the code at the pinned commit accepts (the others raise)
+Avail(route, cls, n, asc, bare, nrm, thin) ==
+  LET tup == ~bare IN
+  /\ Exercised(route, cls, n, asc, bare, nrm, thin)
+  /\ CASE route \in {"local_expectation_exact", "local_expectation_exact_return", "compute_local_expectation_exact"}
+             -> tup                                      \* len(where) is taken of the argument itself
+        [] route = "local_expectation_cluster"           -> tup
+        [] route = "local_expectation_cluster_maxbond"   -> tup /\ (cls = "peps" \/ Gen(cls))   \* goes through .local_expectation
+        [] route = "local_expectation_cluster_loopunion" -> tup /\ cls \notin {"mps", "tree"}   \* needs a loop through the sites
+        [] route = "local_expectation_compressed"        -> tup /\ (cls = "peps" \/ Gen(cls))   \* MPS.partial_trace is a renamed stub, PEPS3D.partial_trace has another signature
+        [] route = "compute_local_expectation_compressed" -> tup
+        [] route \in {"local_expectation_gloop_expand", "local_expectation_gloop_expand_reduced",
+                      "local_expectation_gloop_expand_auto", "local_expectation_sloop_expand"} -> tup
+        [] route = "local_expectation_canonical"         -> cls = "mps"                          \* cyclic: NotImplementedError
+        [] route = "compute_local_expectation_canonical" -> cls = "mps" /\ tup
+        [] route = "compute_local_expectation_via_envs"  -> tup
+        [] route = "expec_TN_1D"                         -> TRUE
+        [] route \in {"peps_compute_local_expectation", "peps_compute_local_expectation_envs"}
+             -> (n = 1 /\ bare) \/ (n = 2 /\ asc)       \* plaquette map: bare single coordinates and pairs a < b only
+        [] route = "peps3d_compute_local_expectation"    -> ~thin
+        [] route = "partial_trace_exact"                 -> TRUE
+        [] route = "partial_trace_exact_tensor_normalized" -> FALSE   \* Tensor has no multiply_: raises
+        [] route = "partial_trace_cluster"               -> tup \/ cls = "peps3d"
+        [] route = "partial_trace_compressed"            -> tup /\ (cls = "peps" \/ Gen(cls))
+        [] route = "partial_trace_compressed_reduce"     -> tup /\ (cls = "peps" \/ Gen(cls)) /\ n = 2
+        [] route = "make_reduced_density_matrix"         -> TRUE
+        [] route = "partial_trace_to_dense_canonical"    -> cls = "mps"
+        [] route \in {"partial_trace_to_mpo", "mpo_trace"} -> TRUE
+        [] route = "peps3d_partial_trace"                -> ~thin
+        [] route \in {"operator_trace", "operator_partial_transpose"} -> TRUE   \* make_reduced_density_matrix wraps a bare site
+        [] route \in NormRoutes                          -> TRUE
+        [] OTHER -> FALSE
 
 (* ---------------- (2) index bookkeeping of the route families ----------- *)
 \* the reduced density "matrix" as the code assembles it: ket copy | conjugated bra copy, output
